@@ -314,9 +314,19 @@ def readDataset (contents : Str) (ic : Char) (names : List Str) (drop : List Boo
             else cells
           let ids1 := getCol j cells1
           -- `df[idcol].astype('int32')` raises on NaN (only reached when the ids were not renumbered)
-          if ids1.any (fun c => c == .nan) then .error .idNonFinite else
+          if ids1.any (fun c => match c with
+              | .nan => true
+              | .num d => (match d.classify with | .inf _ => true | _ => false)
+              | _ => false) then .error .idNonFinite else
           let allInt := ids1.all (fun c => match c with | .num d => d.isInt32 | _ => false)
-          .ok ⟨allInt, cells1⟩
+          -- the int32 image of -0.0 (or of a decimal that underflows to -0.0) is 0
+          let cells2 :=
+            if allInt then
+              setCol j (ids1.map (fun c => match c with
+                | .num d => (match d.classify with | .zero => Cell.num ⟨false, 0, 0⟩ | _ => c)
+                | _ => c)) cells1
+            else cells1
+          .ok ⟨allInt, cells2⟩
   match step2 with
   | .error e => .error e
   | .ok res =>
